@@ -1112,6 +1112,28 @@ fn run(op_full: &str, a: &[&str]) -> String {
                 Err(e) => format!("err {} {}", err_kind(&e), hex(&buf)),
             }
         }
+        // several selections into ONE data buffer and ONE offsets vector (what a caller filling a column does)
+        "path_batch" => {
+            let root = unhex(a[0]);
+            let mut o: Vec<u64> = vec![];
+            let mut out = String::new();
+            for p in &a[2..] {
+                let jp = parse_jsonpath(p);
+                let r = match a[1] {
+                    "get_by_path" => jsonb::get_by_path(&root, jp, &mut buf, &mut o),
+                    "get_by_path_first" => jsonb::get_by_path_first(&root, jp, &mut buf, &mut o),
+                    _ => jsonb::get_by_path_array(&root, jp, &mut buf, &mut o),
+                };
+                if let Err(e) = r {
+                    out = format!("err {} ", err_kind(&e));
+                    break;
+                }
+            }
+            if out.is_empty() {
+                out = "ok ".to_string();
+            }
+            format!("{}{} {}", out, hex(&buf), offs(&o))
+        }
         "path_exists" => match jsonb::path_exists(&unhex(a[0]), parse_jsonpath(a[1])) {
             Ok(b) => format!("ok ={}", b),
             Err(e) => format!("err {}", err_kind(&e)),
